@@ -72,6 +72,8 @@ func execRel(r *RNG, c *Case) {
 	case "snpsagg":
 		a = runSnps(c, false)
 		b = runSnps(c, true)
+	case "bigref":
+		a, b = runBigRef(c)
 	case "gfffasta":
 		a, b = runListAsText(c.Get("text")), runGffFastaSection(c.Get("text"))
 	}
@@ -98,7 +100,7 @@ func init() {
 			c.Tag("sam-form")
 			return c
 		}
-		c := genVarCase(r, id, varOpts{fmtWeights: [2]int{1, 2}, withIns: r.Chance(1, 3), gffShapes: true, allowPhase: true, maxGenes: 6, sameName: true, sameNameLoci: true, ambRef: true})
+		c := genVarCase(r, id, varOpts{fmtWeights: [2]int{1, 2}, withIns: r.Chance(1, 3), gffShapes: true, allowPhase: true, maxGenes: 6, sameName: true, sameNameLoci: true, ambRef: true, agg: r.Chance(1, 4)})
 		c.Set("focus", "nucaa") // C04 speaks about nuc: and aa: records; ins:/del: belong to C05
 		return c
 	}
@@ -221,7 +223,20 @@ func c14Gen(r *RNG, id string) *Case {
 	}
 	c.Set("refmode", refmode).Set("refname", refName).Set("origin", genome)
 	c.Set("names", strings.Join(names, ",")).Set("seqs", strings.Join(seqs, ","))
-	c.SetBool("append", r.Bool()).SetInt("start", -1).SetInt("end", -1).SetBool("agg", false).SetInt("thrn", 0).SetInt("thrd", 1)
+	ws, we := -1, -1
+	if r.Chance(1, 3) { // a window: what lies inside it must not depend on the format either (GenBank features keep file order)
+		switch r.Intn(3) {
+		case 0:
+			we = r.Range(1, L)
+		case 1:
+			ws = r.Range(1, L)
+		default:
+			ws = r.Range(1, L)
+			we = r.Range(ws, L)
+		}
+		c.Tag("window")
+	}
+	c.SetBool("append", r.Bool()).SetInt("start", ws).SetInt("end", we).SetBool("agg", false).SetInt("thrn", 0).SetInt("thrd", 1)
 	c.SetInt("threads", r.PickInt([]int{1, 2, 4}))
 	for _, g := range genes {
 		c.Tag("form-" + g.gbForm)
